@@ -159,3 +159,21 @@ func tierN(quick, thorough int64) func(string) int64 {
 		return quick
 	}
 }
+
+// cornerFirst builds the hostile list shape "small voxels sitting in the extreme corners of a big one, then the big
+// one": [min-corner descendant, max-corner descendant, (random descendants), P]. De-duplication shortcuts that look
+// only at the first/last element of a block, or at what earlier inputs produced, break on it.
+func cornerFirst(r *core.Rng, P ref.ID, dh, dv int64) []ref.ID {
+	h, v := P.H+dh, P.V+dv
+	udh, udv := uint(dh), uint(dv)
+	lo := ref.ID{H: h, X: P.X << udh, Y: P.Y << udh, V: v, F: P.F << udv}
+	hi := ref.ID{H: h, X: (P.X+1)<<udh - 1, Y: (P.Y+1)<<udh - 1, V: v, F: (P.F+1)<<udv - 1}
+	out := []ref.ID{lo, hi}
+	for k := r.Intn(3); k > 0; k-- {
+		out = append(out, descendant(r, P, h, v))
+	}
+	if r.P(0.3) {
+		out[0], out[1] = out[1], out[0]
+	}
+	return append(out, P)
+}
